@@ -15,7 +15,10 @@ from . import tracecheck
 
 KINDS = ["missing_file", "corrupt_json", "corrupt_xlsx", "overload", "zero_impedance", "island_no_slack",
          "dangling_reference", "no_pflow_element", "tds_after_failed_pflow", "eig_after_failed_pflow",
-         "garbage_raw", "singular_all_lines_out"]
+         "garbage_raw"]
+# "all branches out of service" is not an infeasible input under the library's semantics: every bus but the slack bus is
+# reported as islanded and excluded, the power flow of what remains passes its residual test (it used to be "reported" only
+# because System.connectivity() raised IndexError, repaired by 8c24139)
 
 
 def _rec(kind, ret, raised, exit_after, nan=False):
